@@ -61,6 +61,52 @@ def solve_ladder(build, timeout_ms):
     return res
 
 
+def solve_equiv(build, timeout_ms, ladder=({}, {'abstract_order': True})):
+    """build(ctx_kwargs) -> (side_conditions, [(lhs, rhs), ...]). Decides  side |= lhs <-> rhs  for every pair by one
+    query per pair and direction (lhs & ~rhs, ~lhs & rhs): small queries are decided far more often than one big
+    disjunction. Verdict: sat as soon as one query is sat (with that model), unknown if any query stays unknown
+    after the ladder, else unsat."""
+    total = 0
+    used = set()
+    unknown = None
+    nq = 0
+    side0, pairs0 = build(ladder[0])
+    for idx in range(len(pairs0)):
+        for direction in (0, 1):
+            verdict = None
+            for kw in ladder:
+                if kw is ladder[0]:
+                    side, pairs = side0, pairs0
+                else:
+                    side, pairs = build(kw)
+                lhs, rhs = pairs[idx]
+                goal = z3.And(lhs, z3.Not(rhs)) if direction == 0 else z3.And(z3.Not(lhs), rhs)
+                res = solve(side + [goal], timeout_ms)
+                nq += 1
+                total += res['ms']
+                if res['verdict'] == 'sat':
+                    if kw:   # a model of an abstraction is not a counterexample
+                        continue
+                    res['ms'] = total
+                    res['queries'] = nq
+                    res['which'] = (idx, direction)
+                    res['ladder'] = 'exact'
+                    return res
+                if res['verdict'] == 'unsat':
+                    verdict = 'unsat'
+                    used.add('exact' if not kw else '+'.join(sorted(kw)))
+                    break
+                unknown = res
+            if verdict is None:
+                unknown['ms'] = total
+                unknown['queries'] = nq
+                unknown['which'] = (idx, direction)
+                unknown['verdict'] = 'unknown'
+                return unknown
+    return {'verdict': 'unsat', 'ms': total, 'model': None, 'smt2': None, 'reason': None, 'queries': nq,
+            'ladder': '|'.join(sorted(used))}
+
+
 def second_opinions(smt2, timeout_s=20):
     """Re-decide an exported VC with /usr/bin/z3 (4.8.12) and cvc5. '(error' => inconclusive."""
     res = {}
